@@ -83,6 +83,8 @@ def parseOp (tok : String) : Option Op :=
     let fl := flags.toList
     pure (.decl v (fl.contains 'x') (fl.contains 'r') (fl.contains 'g') (← parseVt vt) (← ofHex name)
       (← parseBool naked) (← parseBool app) (← parseRhs rhs))
+  | ["IA", name, app, rhs] => do
+    pure (.inline (← ofHex name) (← parseBool app) (← parseRhs rhs))
   | ["U", mode, name, sub] => do
     let mode ← match mode with
       | "b" => some UnsetMode.both | "v" => some .vars | "f" => some .funcs | _ => none
